@@ -70,35 +70,83 @@ class P(Property):
                      'the harness scheduler (baton over Mutex+Condvar, one OS thread per task) and SimQuic']
 
     def configs(self, tier):
+        """(side, drv, np, derr, loss, closing, k, serr)"""
         out = []
+        T = tier == 'thorough'
         for side in ('srv', 'cli'):
+            S = side == 'srv'
             for drv in ('pce', 'full'):
+                F = drv == 'full'
                 base = [('-', '-', 1, 'fu'), ('-', 'x777', 1, 'l'),
                         ('-', '-', 2, 'fu,fe'), ('-', 'x777', 2, 'l,fe'), ('-', 'i', 2, 'l,se')]
-                if drv == 'pce' or tier == 'thorough':
+                if not F or T:
                     base += [('-', '-', 2, 'se,fu'), ('-', 't', 2, 'fu,l')]
-                if drv == 'full':
+                if F:
                     base += [('ccs', '-', 1, 'fu'), ('ccs', '-', 2, 'fu,fe')]
-                    if tier == 'thorough':
+                    if T:
                         base += [('c2s', '-', 2, 'fe,se')]
-                if tier == 'thorough':
-                    base += [('-', '-', 3, 'fu,fe,se'), ('-', 'i', 3, 'fe,l,fu'), ('-', 'x300', 3, 'l,se,l')]
-                    if drv == 'full':
+                if T:
+                    base += [('-', '-', 3, 'fu,fe,se'), ('-', 'i', 3, 'fe,l,fu'), ('-', 'x300', 3, 'l,se,l'),
+                             ('-', 'x300', 3, 'xfu,xw,qp'), ('-', '-', 3, 'ue,tfu,qp')]
+                    if F:
                         base += [('ccs', '-', 3, 'fu,fe,se')]
                 for derr, loss, k, serr in base:
-                    out.append((side, drv, derr, loss, k, serr))
+                    out.append((side, drv, 1, derr, loss, '-', k, serr))
+                # the UnexpectedEnd arm; other codes (QPACK 0x200, H3_NO_ERROR 0x100 from the last SendRequest drop,
+                # MISSING_SETTINGS, ID_ERROR on the driver's side); other raising handles and APIs
+                fam = [('-', '-', 1, 'ue')]
+                if not F or T:
+                    fam += [('-', '-', 2, 'ue,fu'), ('-', '-', 2, 'qp,fu'), ('-', '-', 2, 'tfu,fe'),
+                            ('-', 'x777', 2, 'wd,wt'), ('-', 'x777', 2, 'wf,wr' if S else 'wf,l'),
+                            ('-', 'x777', 2, 'xfu,xw'), ('-', 't', 2, 'xw,xl')]
+                    if not S:
+                        fam += [('-', '-', 2, 'dr,fu'), ('-', 'x777', 2, 'rq,l')]
+                if F:
+                    fam += [('cms', '-', 1, 'fu'), ('cid', '-', 1, 'fu'), ('-', 'x777', 1, 'xw'), ('-', '-', 1, 'qp')]
+                    if not S:
+                        fam += [('-', '-', 1, 'dr')]
+                    if T:
+                        fam += [('cms', '-', 2, 'fu,qp'), ('cid', '-', 2, 'fe,fu')]
+                for derr, loss, k, serr in fam:
+                    out.append((side, drv, 1, derr, loss, '-', k, serr))
+                # the connection is already shutting down when the error is raised
+                for closing in ('goaway', 'shutdown'):
+                    cl = [('-', '-', 1, 'fu')] if F else [('-', '-', 2, 'fu,fe')]
+                    if T:
+                        cl += [('-', 'i', 2, 'l,se'), ('-', '-', 2, 'qp,ue')]
+                    for derr, loss, k, serr in cl:
+                        out.append((side, drv, 1, derr, loss, closing, k, serr))
+                # two scheduled driver polls (the second with a waker of its own)
+                two = [('-', '-', 1, 'fu')]
+                if not F:
+                    two += [('-', '-', 2, 'fu,fe')]
+                if T:
+                    two += [('-', 'x777', 2, 'l,fe')] + ([('-', '-', 2, 'fu,fe')] if F else [])
+                for derr, loss, k, serr in two:
+                    out.append((side, drv, 2, derr, loss, '-', k, serr))
         return out
 
     def cases(self, tier, rng):
         out = []
-        for side, drv, derr, loss, k, serr in self.configs(tier):
+        for side, drv, np_, derr, loss, closing, k, serr in self.configs(tier):
             own = drv == 'full' and (derr != '-' or loss != '-')
-            nd = 4 if drv == 'pce' else (7 if own else 10)
+            if drv == 'pce':
+                nd = 4 * np_ - (np_ - 1)
+            elif derr == 'cid' and loss == '-':
+                nd = 13
+            elif own:
+                nd = 7
+            else:
+                nd = 10 * np_ - (np_ - 1)
             counts = [('D', nd)] + [('S%d' % (i + 1), 2) for i in range(k)]
-            head = 'err side=%s drv=%s derr=%s loss=%s k=%d serr=%s sched=' % (side, drv, derr, loss, k, serr)
-            if k == 3 and drv == 'full':
+            head = 'err side=%s drv=%s np=%d derr=%s loss=%s closing=%s k=%d serr=%s sched=' % (
+                side, drv, np_, derr, loss, closing, k, serr)
+            total = nd + 2 * k
+            import math
+            nperm = math.factorial(total) // (math.factorial(nd) * 2 ** k)
+            if nperm > 20000:
                 seen = set()
-                for _ in range(30000):
+                for _ in range(30000 if k == 3 else 20000):
                     seen.add(rand_perm(rng, counts))
                 for s in sorted(seen):
                     out.append(head + s)
@@ -115,8 +163,8 @@ class P(Property):
             return False
         x = s['d2']
         # every handle reports the single outcome, on every later call; close exactly as the outcome demands
-        for key in ('s1', 'd2', 's2', 's3', 'd3', 'close'):
-            if o.get(key) != s[key]:
+        for key in ('keys', 's1', 'd2', 's2', 's3', 'd4', 'd3', 'close'):
+            if s[key] != '*' and o.get(key) != s[key]:
                 return False
         # the scheduled driver poll either reports the outcome or parks -- then it must have been woken
         if o.get('d1') == 'pending':
